@@ -1,6 +1,6 @@
 (* mx_wire: runs the extracted Wire model (run_op) on cases read from stdin, one per line, and
    prints one line per case in the format of harness/src/bin/c15.rs.
-     enc SCHEMA ; VAL | dec SCHEMA ; HEX | v64d HEX | v64e N | tagd HEX | tage NUM WT | zz I | uzz N
+     enc SCHEMA ; VAL | dec SCHEMA ; HEX | repack SCHEMA ; HEX | v64d HEX | v64e N | tagd HEX | tage NUM WT | zz I | uzz N
      sc KIND VAL | scd KIND HEX
    SCHEMA :=  S ( FLD* ) | E ( VAR* ) | R SCHEMA SCHEMA
    FLD    :=  NUM (p|o|r) TY          TY := scalar-name | M SCHEMA
@@ -151,6 +151,7 @@ let show_out (o : out) : string =
   | RTag r -> show_res (fun ((num, wt), rest) ->
                 Printf.sprintf "%s %d rest=%s" (string_of_n num) (wt_num wt) (hex_of_bytes rest)) r
   | RInt z -> string_of_z z
+  | RRepack r -> show_res (fun (bs, rest) -> hex_of_bytes bs ^ " rest=" ^ hex_of_bytes rest) r
 
 let split_semi (s : string) : string * string =
   match String.index_opt s ';' with
@@ -167,6 +168,7 @@ let parse_op (line : string) : op =
   match opname with
   | "enc" -> let (a, b) = split_semi rest in OEnc (parse_msg (toks_of a), parse_val (toks_of b))
   | "dec" -> let (a, b) = split_semi rest in ODec (parse_msg (toks_of a), bytes_of_hex (first_tok b))
+  | "repack" -> let (a, b) = split_semi rest in ORepack (parse_msg (toks_of a), bytes_of_hex (first_tok b))
   | "v64d" -> OV64Dec (bytes_of_hex (first_tok rest))
   | "v64e" -> OV64Enc (n_of_dec (first_tok rest))
   | "tagd" -> OTagDec (bytes_of_hex (first_tok rest))
